@@ -3,7 +3,8 @@ from ._common import STD_TRUST
 PROP = dict(
     level='proof',
     regen=['crctable', 'wireconsts', 'integconsts'],
-    theorems=['Fit.C11.C11_write_error_surfaces', 'Fit.C11.C11_stale_header_witness'],
+    theorems=['Fit.C11.C11_write_error_surfaces', 'Fit.C11.C11_error_surfaces_batch', 'Fit.C11.C11_success_means_no_fault',
+              'Fit.C11.C11_stale_header_witness'],
     families=[dict(name='enc-faults', prop=True)],
     trusted_base=STD_TRUST + [
         "fault model FitModel/Writer.lean `Faults`: any set of destination operations fails, each after taking at most j bytes; tied by family enc-faults: every fault point (operation x j in {0,1,len-1,len}) of real encodes, for all writer kinds, buffer sizes, batch and stream: result per API call, call in which the fault fired, operation log, destination content and the real CheckIntegrity verdict on it compared with the model",
